@@ -726,9 +726,16 @@ func (s *scPkg) sessionInit(server, session string) ([][2]string, bool) {
 	return res, true
 }
 
-func extractSmtpConc() {
-	g := gen("SmtpConc")
-	s := scLoad("pkg/server/smtp")
+func extractSmtpConc() { extractSessionSharing("SmtpConc", "pkg/server/smtp") }
+
+// the same facts for the POP3 server (Gen/Pop3Share.lean, pinned by Tie/Pop3Conc.lean): what one POP3 session can share with another
+func extractPop3Share() { extractSessionSharing("Pop3Share", "pkg/server/pop3") }
+
+func init() { extractors = append(extractors, extractPop3Share) }
+
+func extractSessionSharing(genName, dir string) {
+	g := gen(genName)
+	s := scLoad(dir)
 	server, session, code, ok := s.sessionCode()
 	inSession := map[*ast.FuncDecl]bool{}
 	var fnames []string
@@ -741,7 +748,7 @@ func extractSmtpConc() {
 		fnames = append(fnames, nm)
 	}
 	sort.Strings(fnames)
-	g.def("sessionFunctions", "List String", strList(fnames), "the functions of pkg/server/smtp counted as session code: what the go statement of the accept loop runs and everything that reaches, every method of the session type, every method of a package type session code builds a value of (empty = the roles were not found)")
+	g.def("sessionFunctions", "List String", strList(fnames), "the functions of "+dir+" counted as session code: what the go statement of the accept loop runs and everything that reaches, every method of the session type, every method of a package type session code builds a value of (empty = the roles were not found)")
 
 	// ---- package-level variables
 	var vnames []string
@@ -757,7 +764,7 @@ func extractSmtpConc() {
 		}
 		pv = append(pv, fmt.Sprintf("(%s, %s)", leanStr(n), leanStr(v)))
 	}
-	g.def("pkgVars", "List (String × String)", "["+strings.Join(pv, ", ")+"]", "every package-level variable of pkg/server/smtp with a verdict: regexp | readOnlyTable | constant | metricWriteOnly | notReachedFromSessions | unknown (see harness/cmd/extract/smtpconc.go)")
+	g.def("pkgVars", "List (String × String)", "["+strings.Join(pv, ", ")+"]", "every package-level variable of "+dir+" with a verdict: regexp | readOnlyTable | constant | metricWriteOnly | notReachedFromSessions | unknown (see harness/cmd/extract/smtpconc.go)")
 
 	// ---- the session constructor
 	val := "none"
